@@ -3,7 +3,7 @@
    model; plus the hand-written 4-multiplication product, the thread-local cache policy
    and the conversion model of link.c. *)
 Require Import Reals List ZArith Lra Lia Bool.
-Require Import MPSV.Mpc.MpfSem MPSV.Mpc.MpcErr MPSV.Mpc.MpcPow MPSV.Mpc.Gen.MpcGen.
+Require Import MPSV.Mpc.MpfSem MPSV.Mpc.MpcErr MPSV.Mpc.MpcPow MPSV.Mpc.MpfSi MPSV.Mpc.Gen.MpcGen.
 Import ListNotations.
 Open Scope R_scope.
 
@@ -273,6 +273,35 @@ Proof.
   rewrite pow_si_val_pow. change (Z.abs_nat 5) with 5%nat. change ((5 <? 0)%Z) with false.
   unfold cpown, cmul, cone; simpl. apply injective_projections; simpl; ring.
 Qed.
+
+(* ---------------------------------------------------------------- gmptools.c mpf_*_si helpers: the traced programs
+   (destination != source: F2, F1; destination = source: F1, F1; a positive, zero, a negative argument and LONG_MIN)
+   are instances of the Coq function si_model of Mpc/MpfSi.v *)
+Lemma si_instances :
+  si_model AddSi F2 F1 (7) = prog_mpf_add_si_7_p0 /\ si_model AddSi F1 F1 (7) = prog_mpf_add_si_7_p1 /\
+  si_model AddSi F2 F1 (0) = prog_mpf_add_si_0_p0 /\ si_model AddSi F1 F1 (0) = prog_mpf_add_si_0_p1 /\
+  si_model AddSi F2 F1 (-7) = prog_mpf_add_si_m7_p0 /\ si_model AddSi F1 F1 (-7) = prog_mpf_add_si_m7_p1 /\
+  si_model AddSi F2 F1 (-9223372036854775808) = prog_mpf_add_si_m9223372036854775808_p0 /\ si_model AddSi F1 F1 (-9223372036854775808) = prog_mpf_add_si_m9223372036854775808_p1 /\
+  si_model SubSi F2 F1 (7) = prog_mpf_sub_si_7_p0 /\ si_model SubSi F1 F1 (7) = prog_mpf_sub_si_7_p1 /\
+  si_model SubSi F2 F1 (0) = prog_mpf_sub_si_0_p0 /\ si_model SubSi F1 F1 (0) = prog_mpf_sub_si_0_p1 /\
+  si_model SubSi F2 F1 (-7) = prog_mpf_sub_si_m7_p0 /\ si_model SubSi F1 F1 (-7) = prog_mpf_sub_si_m7_p1 /\
+  si_model SubSi F2 F1 (-9223372036854775808) = prog_mpf_sub_si_m9223372036854775808_p0 /\ si_model SubSi F1 F1 (-9223372036854775808) = prog_mpf_sub_si_m9223372036854775808_p1 /\
+  si_model SiSub F2 F1 (7) = prog_mpf_si_sub_7_p0 /\ si_model SiSub F1 F1 (7) = prog_mpf_si_sub_7_p1 /\
+  si_model SiSub F2 F1 (0) = prog_mpf_si_sub_0_p0 /\ si_model SiSub F1 F1 (0) = prog_mpf_si_sub_0_p1 /\
+  si_model SiSub F2 F1 (-7) = prog_mpf_si_sub_m7_p0 /\ si_model SiSub F1 F1 (-7) = prog_mpf_si_sub_m7_p1 /\
+  si_model SiSub F2 F1 (-9223372036854775808) = prog_mpf_si_sub_m9223372036854775808_p0 /\ si_model SiSub F1 F1 (-9223372036854775808) = prog_mpf_si_sub_m9223372036854775808_p1 /\
+  si_model MulSi F2 F1 (7) = prog_mpf_mul_si_7_p0 /\ si_model MulSi F1 F1 (7) = prog_mpf_mul_si_7_p1 /\
+  si_model MulSi F2 F1 (0) = prog_mpf_mul_si_0_p0 /\ si_model MulSi F1 F1 (0) = prog_mpf_mul_si_0_p1 /\
+  si_model MulSi F2 F1 (-7) = prog_mpf_mul_si_m7_p0 /\ si_model MulSi F1 F1 (-7) = prog_mpf_mul_si_m7_p1 /\
+  si_model MulSi F2 F1 (-9223372036854775808) = prog_mpf_mul_si_m9223372036854775808_p0 /\ si_model MulSi F1 F1 (-9223372036854775808) = prog_mpf_mul_si_m9223372036854775808_p1 /\
+  si_model DivSi F2 F1 (7) = prog_mpf_div_si_7_p0 /\ si_model DivSi F1 F1 (7) = prog_mpf_div_si_7_p1 /\
+  si_model DivSi F2 F1 (-7) = prog_mpf_div_si_m7_p0 /\ si_model DivSi F1 F1 (-7) = prog_mpf_div_si_m7_p1 /\
+  si_model DivSi F2 F1 (-9223372036854775808) = prog_mpf_div_si_m9223372036854775808_p0 /\ si_model DivSi F1 F1 (-9223372036854775808) = prog_mpf_div_si_m9223372036854775808_p1 /\
+  si_model SiDiv F2 F1 (7) = prog_mpf_si_div_7_p0 /\ si_model SiDiv F1 F1 (7) = prog_mpf_si_div_7_p1 /\
+  si_model SiDiv F2 F1 (0) = prog_mpf_si_div_0_p0 /\ si_model SiDiv F1 F1 (0) = prog_mpf_si_div_0_p1 /\
+  si_model SiDiv F2 F1 (-7) = prog_mpf_si_div_m7_p0 /\ si_model SiDiv F1 F1 (-7) = prog_mpf_si_div_m7_p1 /\
+  si_model SiDiv F2 F1 (-9223372036854775808) = prog_mpf_si_div_m9223372036854775808_p0 /\ si_model SiDiv F1 F1 (-9223372036854775808) = prog_mpf_si_div_m9223372036854775808_p1.
+Proof. repeat split; vm_compute; reflexivity. Qed.
 
 (* non-vacuity: the exact arithmetic is a standard model with u = 0, and a concrete store *)
 Definition store0 : store := fun r =>
